@@ -1378,3 +1378,17 @@ const MAX_TRANSMIT_DATAGRAMS: usize = 20;
 /// memory allocations when calling `poll_transmit()`. Benchmarks have shown
 /// that numbers around 10 are a good compromise.
 const MAX_TRANSMIT_SEGMENTS: usize = 10;
+
+#[cfg(feature = "quinn_rs_quinn_verif")]
+impl Connection {
+    /// Verification hook (read-only): evaluate `f` on the protocol state machine of this connection
+    pub fn verif_with_proto<R>(&self, f: impl FnOnce(&proto::Connection) -> R) -> R {
+        f(&self.0.state.lock("verif_with_proto").inner)
+    }
+
+    /// Verification hook (read-only): the waker the connection driver left behind when it last went to
+    /// sleep, unless a `State::wake` has consumed it since
+    pub fn verif_driver_waker(&self) -> Option<Waker> {
+        self.0.state.lock("verif_driver_waker").driver.clone()
+    }
+}
